@@ -215,6 +215,25 @@ pub fn last_state_proof_mutants(
     if !headers.is_empty() {
         out.push(Mutant { label: "headers.empty".into(), attr: "match", msg: wrap(with_headers(&honest, vec![])) });
     }
+    // ---- cross-branch: a genuine proof of ANOTHER chain under the requested last header -----------
+    // A twin of the last block (same number and total difficulty on a branch that forks at least two blocks
+    // below, so that the ancestors differ) has its own chain root.  The peer answers with the twin's proof and headers, and with the requested last header carrying
+    // the twin's parent chain root: the header itself, its uncles hash, its extension and the total difficulty
+    // are the requested ones, only the chain root the proof is checked against is not the one the header
+    // commits to.
+    if let Some(par) = c.blocks[plan.last].parent {
+        let twin = c.blocks.iter().find(|b| {
+            b.id != plan.last && b.num == c.blocks[plan.last].num && b.parent.is_some() && b.parent != Some(par)
+                && b.ttd == c.blocks[plan.last].ttd && b.td == c.blocks[plan.last].td && b.pow && b.root
+        });
+        if let Some(tw) = twin {
+            let p2 = ProofPlan { last: tw.id, reorg: plan.reorg.clone(), samples: plan.samples.clone(), last_n: plan.last_n.clone() };
+            let twin_msg = HonestPeer::encode_plan(c, &p2);
+            let forged_last = honest.last_header().as_builder().parent_chain_root(twin_msg.last_header().parent_chain_root()).build();
+            let msg = twin_msg.as_builder().last_header(forged_last).build();
+            out.push(Mutant { label: "cross-branch.chain-root".into(), attr: "root", msg: wrap(msg) });
+        }
+    }
     // ---- structural, RE-PROVED: a server that shows other genuine headers of the same chain ----
     let chain = c.chain_of(plan.last);
     let reprove = |plan2: &ProofPlan| wrap(HonestPeer::encode_plan(c, plan2));
